@@ -39,6 +39,16 @@ def sh(cmd, cwd=None, timeout=None, input=None, env=None):
         out = (e.stdout or b'').decode('utf-8', 'replace')
         return 124, out + '\n[timeout after %ss]' % timeout, time.time() - t0
 
+def _limits():
+    """resource limits of every harness / driver process: a regression that makes a traversal blow
+    up must end that process (reported as a crash), not the machine"""
+    import resource
+    gb = int(os.environ.get('VERIF_MEM_GB', '6'))
+    try:
+        resource.setrlimit(resource.RLIMIT_AS, (gb << 30, gb << 30))
+    except Exception:
+        pass
+
 class Lock:
     """serialises use of the shared build directories"""
     def __enter__(self):
@@ -264,7 +274,7 @@ def run_bin(binary, args, cases=None, timeout=600, shards=1):
     if shards <= 1 or len(cases) < 4 * shards:
         data = ('\n'.join(cases) + '\n').encode('utf-8')
         try:
-            p = subprocess.run([binary] + args, input=data, stdout=subprocess.PIPE, stderr=subprocess.PIPE, timeout=timeout, env=ENV)
+            p = subprocess.run([binary] + args, input=data, stdout=subprocess.PIPE, stderr=subprocess.PIPE, timeout=timeout, env=ENV, preexec_fn=_limits)
             lines = p.stdout.decode('utf-8', 'replace').split('\n')
             if lines and lines[-1] == '': lines.pop()
             return p.returncode, lines
@@ -277,7 +287,7 @@ def run_bin(binary, args, cases=None, timeout=600, shards=1):
     outs = []
     for k in range(0, n, step):
         chunk = cases[k:k + step]
-        p = subprocess.Popen([binary] + args, stdin=subprocess.PIPE, stdout=subprocess.PIPE, stderr=subprocess.DEVNULL, env=ENV)
+        p = subprocess.Popen([binary] + args, stdin=subprocess.PIPE, stdout=subprocess.PIPE, stderr=subprocess.DEVNULL, env=ENV, preexec_fn=_limits)
         procs.append((p, chunk))
     import threading
     results = [None] * len(procs)
